@@ -15,6 +15,7 @@
    Partial: the composition into "replica invariant preserved by verify_and_apply_proof" (byte offsets,
    storage) and Ed25519 unforgeability itself are not proved; the alteration enumeration of tools/c04.py
    covers the composition on every run. *)
+From HC Require Import AlterRefused.
 From HC Require Import AnyProofLib AnyProofUp AnyProof.
 From HC Require AnyProofEx.
 From HC Require Import FlatTree Bitfield Oplog Merkle Core Refine SoundCoreLib SoundCore SoundCoreUp SoundCoreBU.
@@ -321,6 +322,122 @@ Theorem C04_full_invariant_implies_hash_invariant :
          writer_fits bs -> forall (c : core) (d : disk), RInv cr bs c d -> HInv cr bs c d.
 Proof. exact RInv_HInv. Qed.
 
+Theorem C04_altered_field_refused :
+  forall cr : crypto,
+         (forall x : bytes, Datatypes.length (cr_hash cr x) = 32%nat) ->
+         (forall x : bytes, all_zero (cr_hash cr x) = false) ->
+         forall bs : list bytes,
+         writer_fits bs ->
+         forall (c : core) (d : disk) (j : list sop) (ev : list event) (pf pf' : proof),
+         let pk := kp_public (c_keypair c) in
+         let r := t_length (c_tree c) in
+         RInv cr bs c d ->
+         honest cr bs pk r pf ->
+         altered pf pf' ->
+         wire_ok pf' ->
+         refused cr pf' c {| w_disk := d; w_journal := j; w_events := ev |} \/
+         some_collision cr \/ forged_signature cr bs pk \/ sig_transplant cr pk \/ sig_malleable cr pk.
+Proof. exact altered_field_refused. Qed.
+
+Theorem C04_altered_field_of_block_upgrade_proof_refused :
+  forall cr : crypto,
+         (forall x : bytes, Datatypes.length (cr_hash cr x) = 32%nat) ->
+         (forall x : bytes, all_zero (cr_hash cr x) = false) ->
+         forall bs : list bytes,
+         writer_fits bs ->
+         forall (c : core) (d : disk) (j : list sop) (ev : list event) (pf pf' : proof),
+         let pk := kp_public (c_keypair c) in
+         let r := t_length (c_tree c) in
+         RInv cr bs c d ->
+         honest_bu cr bs (c_tree c) (d_tree d) pk r pf ->
+         altered pf pf' ->
+         wire_ok pf' ->
+         block_fits pf' ->
+         refused cr pf' c {| w_disk := d; w_journal := j; w_events := ev |} \/
+         some_collision cr \/ forged_signature cr bs pk \/ sig_transplant cr pk \/ sig_malleable cr pk.
+Proof. exact bu_altered_field_refused. Qed.
+
+Theorem C04_proof_from_another_writer_refused :
+  forall cr : crypto,
+         (forall x : bytes, Datatypes.length (cr_hash cr x) = 32%nat) ->
+         (forall x : bytes, all_zero (cr_hash cr x) = false) ->
+         forall bs : list bytes,
+         writer_fits bs ->
+         forall (bs2 : list bytes) (pk2 : bytes) (c : core) (d : disk) (j : list sop) 
+           (ev : list event) (pf2 : proof),
+         let pk := kp_public (c_keypair c) in
+         let r := t_length (c_tree c) in
+         RInv cr bs c d ->
+         honest cr bs2 pk2 r pf2 ->
+         wire_ok pf2 ->
+         refused cr pf2 c {| w_disk := d; w_journal := j; w_events := ev |} \/
+         honest cr bs pk r pf2 \/ some_collision cr \/ forged_signature cr bs pk.
+Proof. exact whole_proof_from_another_writer_refused. Qed.
+
+Theorem C04_accepted_block_proof_is_the_honest_one :
+  forall cr : crypto,
+         (forall x : bytes, Datatypes.length (cr_hash cr x) = 32%nat) ->
+         (forall x : bytes, all_zero (cr_hash cr x) = false) ->
+         forall bs : list bytes,
+         writer_fits bs ->
+         forall (f : option bool) (c : core) (d : disk) (j : list sop) (ev : list event) 
+           (b : data_block) (c' : core) (w' : world),
+         RInv cr bs c d ->
+         core_apply_proof cr f
+           {| p_fork := 0; p_block := Some b; p_hash := None; p_seek := None; p_upgrade := None |} c
+           {| w_disk := d; w_journal := j; w_events := ev |} = (c', w', Ok true) ->
+         b = hon_block cr bs (db_index b) (Datatypes.length (db_nodes b)) \/ some_collision cr.
+Proof. exact accepted_block_proof_is_honest. Qed.
+
+Theorem C04_accepted_upgrade_proof_shape :
+  forall cr : crypto,
+         (forall x : bytes, Datatypes.length (cr_hash cr x) = 32%nat) ->
+         forall bs : list bytes,
+         writer_fits bs ->
+         forall (f : option bool) (c : core) (d : disk) (j : list sop) (ev : list event) 
+           (s' l' : N) (nodes' : list node) (sg' : bytes) (c' : core) (w' : world),
+         let pk := kp_public (c_keypair c) in
+         let r := t_length (c_tree c) in
+         RInv cr bs c d ->
+         r < s' + l' ->
+         nodes_ok nodes' = true ->
+         no_sibling_pair nodes' ->
+         core_apply_proof cr f
+           {|
+             p_fork := 0;
+             p_block := None;
+             p_hash := None;
+             p_seek := None;
+             p_upgrade :=
+               Some
+                 {|
+                   du_start := s';
+                   du_length := l';
+                   du_nodes := nodes';
+                   du_additional := [];
+                   du_signature := sg'
+                 |}
+           |} c {| w_disk := d; w_journal := j; w_events := ev |} = (c', w', Ok true) ->
+         (exists tail : list node,
+            nodes' = map (TreeRef.rn cr bs) (Replicate2.upg_idx Replicate2.g64 0 r (s' + l')) ++ tail) /\
+         s' + l' <= N.of_nat (Datatypes.length bs) \/ some_collision cr \/ forged_signature cr bs pk.
+Proof. exact accepted_upgrade_proof_shape. Qed.
+
+Theorem C04_upgrade_target_length_is_signed :
+  forall (cr : crypto) (bs : list bytes),
+         writer_fits bs ->
+         forall (c0 : changeset) (r : N) (root : option node) (fork s' l' : N) (nodes' : list node)
+           (sg' pk : bytes) (consumed : bool) (cs : changeset),
+         Replicate2.vinv cr bs c0 r ->
+         2 * r <= u64_max ->
+         verify_upgrade cr fork
+           {| du_start := s'; du_length := l'; du_nodes := nodes'; du_additional := []; du_signature := sg' |}
+           root pk c0 = Ok (consumed, cs) ->
+         cs_length cs = N.max r (s' + l') /\
+         s' + l' < 2 ^ 64 /\
+         cr_verify cr pk (signable (tree_hash cr (cs_roots cs)) (N.max r (s' + l')) fork) sg' = true.
+Proof. exact upgrade_target_length. Qed.
+
 Print Assumptions C04_block_value_sound.
 Print Assumptions C04_climb_sound.
 Print Assumptions C04_leaf_hash_binds.
@@ -356,3 +473,14 @@ Print Assumptions AnyProofEx.lone_node_size_refuted.
 Print Assumptions AnyProofEx.byte_length_after_reopen_refuted.
 Print Assumptions AnyProofEx.sizes_repaired_data_misplaced_refuted.
 Print Assumptions AnyProofEx.any_shape_applies.
+Print Assumptions C04_altered_field_refused.
+Print Assumptions C04_altered_field_of_block_upgrade_proof_refused.
+Print Assumptions C04_proof_from_another_writer_refused.
+Print Assumptions C04_accepted_block_proof_is_the_honest_one.
+Print Assumptions C04_accepted_upgrade_proof_shape.
+Print Assumptions C04_upgrade_target_length_is_signed.
+Print Assumptions AlterRefused.sc_upgrade_alterations_refused.
+Print Assumptions AlterRefused.sc_block_alterations_refused.
+Print Assumptions AlterRefused.sc_bu_alterations_refused.
+Print Assumptions AlterRefused.sc_upgrade_structural_alterations.
+Print Assumptions AlterRefused.sc_honest_accepted.
